@@ -305,7 +305,7 @@ impl StorCtx {
     }
 }
 
-/// behaviour: {"cache":"none"|"default"|"short"|"tiny","users":[..],"epochs":[..],"versions":[..],"nodes":[..],"steps":[...],"sweep":"end"|"every"}
+/// behaviour: {"cache":"none"|"default"|"short"|"tiny"|"tight","users":[..],"epochs":[..],"versions":[..],"nodes":[..],"steps":[...],"sweep":"end"|"every"}
 pub async fn run_storage(b: &Value, tr: &mut Tracer) {
     let db = HookDb::new();
     db.ctl.lock().unwrap().spy_commit = true;
@@ -315,6 +315,8 @@ pub async fn run_storage(b: &Value, tr: &mut Tracer) {
         "default" => StorageManager::new(db.clone(), None, None, None),
         "short" => StorageManager::new(db.clone(), Some(Duration::from_millis(2)), None, Some(Duration::from_millis(2))),
         "tiny" => StorageManager::new(db.clone(), Some(Duration::from_millis(40)), Some(300), Some(Duration::from_millis(2))),
+        // "tight<N>": memory limit of N bytes, nothing expires and the cleaner does not run in the meantime
+        t if t.starts_with("tight") => StorageManager::new(db.clone(), None, Some(t[5..].parse().unwrap_or(300)), None),
         other => panic!("bad cache {other}"),
     };
     let strs = |k: &str| -> Vec<String> { b[k].as_array().unwrap().iter().map(|x| x.as_str().unwrap().to_string()).collect() };
